@@ -45,6 +45,12 @@ def run(prop: str, tier: str, seed: int) -> int:
         if rc.violated:
             raise tlc.MachineryError(f"model theorem violated on the reference spec: {rc.violated}")
         runs.append([p for p in rc.printed if p[0] == "inp" and p[1][0] == "dc"])
+        # named tuples as fields under both representations (every namedtuple_as_dict source x field engine): absent, surplus and
+        # invalid items in every position -- the holder reports InvalidFieldValue('p', ..), never an instance made of defaults
+        rn = core.run_mc("MC_NT", wd, rep=rep, label="MC_NT: named-tuple fields x representations x foreign inputs")
+        if rn.violated:
+            raise tlc.MachineryError(f"model theorem violated on the reference spec: {rn.violated}")
+        runs.append([p for p in rn.printed if p[0] == "inp"])
     exhaustive = True
     for printed in runs:
         agg = core.replay(printed)
